@@ -97,7 +97,10 @@ StepGoAway(q, c) == IF q.cst[c] # "open" \/ c \in q.ga THEN {} ELSE
 StepGone(q, c) == IF q.cst[c] # "open" THEN {} ELSE {Out(Gone(q, c), "ok", 0, c)}
 RECURSIVE GoneAll(_, _)
 GoneAll(q, S) == IF S = {} THEN q ELSE LET c == CHOOSE x \in S : TRUE IN GoneAll(Gone(q, c), S \ {c})
-StepPoolClose(q) == {Out(GoneAll(q, {q.slot[i] : i \in Idx} \cap Open(q)), "ok", 0, 0)}
+(* Close() closes the connections the pool designates; connections that are going away and only
+   drain their last streams may be closed with them or left to finish *)
+StepPoolClose(q) == LET des == {q.slot[i] : i \in Idx} \cap (Open(q) \ q.ga) IN
+                    {Out(GoneAll(q, des \cup D), "ok", 0, 0) : D \in SUBSET (Open(q) \cap q.ga)}
 StepShutdown(q) == {Out(IF Kind = "xmux" THEN [q EXCEPT !.shut = TRUE] ELSE q, "ok", 0, 0)}
 
 Step(q, o, mr) ==
